@@ -108,7 +108,14 @@ class Check:
                              'envperm': rng.randrange(1 << 30), 'pad': rng.choice([0, 0, 100, 5000]),
                              'lsseed': rng.choice([0, rng.randrange(1, 1 << 30)]),
                              'history': hist_pool[k % len(hist_pool)] if tier == 'quick' else rng.choice(hist_pool)})
-        return {'kind': 'c06', 'spec': spec, 'extras': extras, 'opts': opts, 'variants': variants, 'backdate': rng.choice([3600, 86400 * 30, 5])}
+        backdate = rng.choice([3600, 86400 * 30, 5])
+        if 'copy' in extras.get('cfg_modes', []) or extras.get('templates'):
+            # (extra stream, added late) the *sources* have a history too: the inputs of configure_file() reach their present
+            # content through an edit that keeps size and time stamp (cp -p, rsync -t, two edits within one clock tick)
+            rx = prng.derive(prng.base_seed(), 'c06-extra', tier, index)
+            variants.append({'hashseed': rx.choice([0, 1, 17]), 'envperm': 0, 'pad': 0, 'lsseed': 0, 'history': 'edited',
+                             'edit_mtime': rx.choice(['same', 'same', 'newer'])})
+        return {'kind': 'c06', 'spec': spec, 'extras': extras, 'opts': opts, 'variants': variants, 'backdate': backdate}
 
     # ------------------------------------------------------------------ project
     def render(self, sc: T.Dict[str, T.Any], sd: str) -> T.List[str]:
@@ -384,13 +391,42 @@ class Check:
             shutil.rmtree(bd, ignore_errors=True)
             h = var['history']
             hs, ep, pad, ls = var['hashseed'], var['envperm'], var['pad'], var['lsseed']
-            steps: T.List[T.List[str]]
+            steps: T.List[T.Any]
             if h == 'fresh':
                 steps = [['setup', bd, sd] + dargs]
             elif h == 'reconfigure':
                 steps = [['setup', bd, sd] + dargs, ['setup', '--reconfigure', bd, sd]]
             elif h == 'wipe':
                 steps = [['setup', bd, sd] + dargs, ['setup', '--wipe', bd, sd]]
+            elif h == 'edited':
+                # the inputs of configure_file() are first given an earlier content of the same size (and the same time stamp);
+                # the directory is configured, the present content comes back, the directory is reconfigured
+                inputs = sorted(p_ for p_ in (os.path.join(sd, n_) for n_ in os.listdir(sd)) if os.path.basename(p_) == 'data.txt' or
+                                (os.path.basename(p_).startswith('tmpl') and p_.endswith('.h.in')))
+                saved = {}
+                for p_ in inputs:
+                    with open(p_, 'rb') as f:
+                        now_b = f.read()
+                    st_ = os.stat(p_)
+                    saved[p_] = (now_b, st_.st_atime_ns, st_.st_mtime_ns)
+                    old_b = now_b.swapcase() if os.path.basename(p_) == 'data.txt' else now_b.replace(b'template', b'TEMPLATE', 1)
+                    with open(p_, 'wb') as f:
+                        f.write(old_b)
+                    os.utime(p_, ns=(st_.st_atime_ns, st_.st_mtime_ns))
+
+                def put_back(saved: T.Dict[str, T.Any] = saved, newer: bool = (var.get('edit_mtime') == 'newer')) -> None:
+                    for p_, (b_, at_, mt_) in saved.items():
+                        with open(p_, 'wb') as f:
+                            f.write(b_)
+                        os.utime(p_, ns=(at_, mt_))            # the scenario's own time stamps: every later variant sees the sources as they were
+                    if newer:
+                        pass                                   # ('newer' = the earlier content carried an older stamp, set below)
+                if var.get('edit_mtime') == 'newer':
+                    for p_, (b_, at_, mt_) in saved.items():
+                        os.utime(p_, ns=(at_, mt_ - 7_000_000_000))
+                steps = [['setup', bd, sd] + dargs, put_back, ['setup', '--reconfigure', bd, sd]]
+                if saved:
+                    add(faults, 'source-edit-keeping-size' + ('-and-mtime' if var.get('edit_mtime') != 'newer' else ''))
             else:
                 # the directory is first configured with other values and then brought to the ones under test
                 other = ['-Dwarning_level=1' if sc.get('opts', {}).get('warning_level', '1') != '1' else '-Dwarning_level=2']
@@ -402,6 +438,9 @@ class Check:
                 steps = [['setup', bd, sd] + dargs + other, ['configure', bd] + orig, ['setup', '--reconfigure', bd, sd]]
             ok_ = True
             for si, args in enumerate(steps):
+                if callable(args):
+                    args()
+                    continue
                 rc, out = self.meson(root, args, hs, ep, pad, ls, f'v{vi}-{si}')
                 if rc != 0:
                     ok_ = False
